@@ -170,7 +170,11 @@ func c20ArgMenu(t reflect.Type, k int) []reflect.Value {
 		// a string that would consume operands if it ever ended up inside a format string
 		p := reflect.New(t).Elem()
 		p.SetString("r%s/%d%v%")
-		return []reflect.Value{d, z, p}
+		// a string spelled like a digest, whatever the parameter is for (a tag may look like one): which
+		// function a call is delegated to depends on the method alone, never on what its arguments look like
+		g := reflect.New(t).Elem()
+		g.SetString("sha256:" + strings.Repeat("0123456789abcdef", 4))
+		return []reflect.Value{d, z, g, p}
 	case t == reflect.TypeOf(ociregistry.Descriptor{}):
 		return []reflect.Value{d, z}
 	case t.Kind() == reflect.Slice:
